@@ -4,7 +4,8 @@
  *   wk <table> <filter> <windows>
  *   match <text> <pattern> <pfx> <sub>       the static match() of coap_resource.c
  *   body <table> <filter>                    size probe + full print exactly as hnd_get_wellknown_lkd does
- *   get <table> <filter> <szx>               a real block-wise GET /.well-known/core?<filter> (one Uri-Query option) through
+ *   get <table> <queries> <szx>              a real block-wise GET /.well-known/core (<queries>: N/- none, else `+`-separated
+ *                                            Uri-Query option values, hex, `-` = empty value) through
  *                                            coap_dispatch() on a UDP session, Block2 size 2^(szx+4), reassembled;
  *                                            output <body hex>:<number of responses>  (coap_socket_send is wrapped: nothing is sent)
  *
@@ -258,16 +259,26 @@ out:
   free(qs.s);
 }
 
-static void do_get(char *table, char *filter, int szx) {
-  coap_string_t qs, *q;
+static void do_get(char *table, char *queries, int szx) {
   coap_address_t addr;
   coap_session_t *session = NULL;
   static uint8_t body[1 << 16];
+  static uint8_t *qv[16]; static size_t ql[16];
+  char *qw[16];
+  int nq = 0, k;
   size_t blen = 0;
   unsigned num = 0, nresp = 0;
   int bad = 0;
   const char *why = "";
-  if (szx < 0 || szx > 6 || !make_filter(filter, &qs, &q)) { printf("bad-op"); return; }
+  if (szx < 0 || szx > 6) { printf("bad-op"); return; }
+  if (strcmp(queries, "N") && strcmp(queries, "-")) {
+    nq = split(queries, '+', qw, 16);
+    if (nq < 0) { printf("bad-op"); return; }
+    for (k = 0; k < nq; k++) {
+      qv[k] = h_unhex(qw[k], &ql[k]);
+      if (!qv[k]) { while (k--) free(qv[k]); printf("bad-op"); return; }
+    }
+  }
   if (!build_table(table)) { printf("bad-op"); goto out; }
   coap_address_init(&addr);
   addr.size = sizeof(struct sockaddr_in);
@@ -287,7 +298,7 @@ static void do_get(char *table, char *filter, int szx) {
     coap_add_token(req, 2, tok);
     coap_add_option(req, COAP_OPTION_URI_PATH, 11, (const uint8_t *)".well-known");
     coap_add_option(req, COAP_OPTION_URI_PATH, 4, (const uint8_t *)"core");
-    if (q && q->length) coap_add_option(req, COAP_OPTION_URI_QUERY, q->length, q->s);
+    for (k = 0; k < nq; k++) coap_add_option(req, COAP_OPTION_URI_QUERY, ql[k], qv[k]);
     coap_add_option(req, COAP_OPTION_BLOCK2, coap_encode_var_safe(b, sizeof(b), (num << 4) | (unsigned)szx), b);
     cap_n = 0; cap_len = 0;
     coap_lock_lock(ctx, );
@@ -320,7 +331,7 @@ static void do_get(char *table, char *filter, int szx) {
 out:
   if (session) coap_session_release(session);
   h_delete_all_resources();
-  free(qs.s);
+  for (k = 0; k < nq; k++) free(qv[k]);
 }
 
 static void do_match(const char *t, const char *p, int pfx, int sub) {
